@@ -430,7 +430,19 @@ def check(tier):
                 rep.failure("cfg-verify-order", {"cfg-verify-order"}, {"input_text": t, "run_1": a["parse_error"], "run_2": b["parse_error"]})
                 continue
             nondet.append((t, keys, {k: a.get(k) for k in keys}, {k: b.get(k) for k in keys}))
-    rep.obligation("in-process: %d runs each of %d specifications give one observable result" % (times, len(rspecs)), not nondet)
+    # the same specification after ANOTHER one in the same process (one text a string there and a pattern here): same result as alone
+    twins = [('grammar wild;\nANY = /./\nstart = ANY;\n', 'grammar path;\nID = /[a-z]+/\nstart = ID | start "." ID;\n'),
+             ('grammar lit;\nstart = "+" "a+" start | ;\n', 'grammar pat;\nPLUS = /+/\nAS = /a+/\nstart = PLUS AS;\n'),
+             ('grammar pat;\nAS = /a+/\nstart = AS;\n', 'grammar lit;\nstart = "a+" "b";\n')]
+    treqs = [{"op": "sequence", "texts": [b_], "patterns": []} for _, b_ in twins] + [{"op": "sequence", "texts": [a_, b_], "patterns": []} for a_, b_ in twins]
+    tres = [C.hook_batch([rq])[0] for rq in treqs]
+    for k, (a_, b_) in enumerate(twins):
+        alone, after = tres[k], tres[len(twins) + k]
+        if alone.get("outcome") == "ok" and after.get("outcome") == "ok" and alone["results"][0] != after["results"][1]:
+            nondet.append((b_, ["result after another specification"], {"alone": alone["results"][0][:500]},
+                           {"after": a_, "result": after["results"][1][:500]}))
+    rep.obligation("in-process: %d runs each of %d specifications give one observable result (and %d specifications the same result after another one)"
+                   % (times, len(rspecs), len(twins)), not nondet)
     for t, keys, a, b in nondet[:3]:
         rep.failure("in-process", {"in-process"}, {"input_text": t, "differs_in": keys, "run_1": a, "run_2": b})
 
